@@ -857,6 +857,10 @@ def build(recipe, U):
         import ufl
 
         return getattr(ufl, name)(build(recipe[1], U))
+    if name == "refval":
+        from ufl.classes import ReferenceValue
+
+        return ReferenceValue(build(recipe[1], U))
     es, ps = split_args(recipe)
     b = ops()[name][1]
     return b(U, *[build(e, U) for e in es], *ps)
@@ -887,6 +891,17 @@ def interp(recipe, U, ctx, cache=None):
         if name == "jump":
             return l_add(a, b, -1)
         return l_unary(lambda x: x / 2)(l_add(a, b))
+    if name == "refval":
+        # leaf-level: the reference value of a form argument is field data, not something L computes
+        if recipe[1][0] != "t":
+            raise LangError("reference value of a non-terminal")
+        from ufl.classes import FormArgument, ReferenceValue
+
+        o = U.t[recipe[1][1]]
+        if not isinstance(o, FormArgument):
+            raise LangError("reference value of a non-form-argument")
+        ro = ReferenceValue(o)
+        return LT.from_value(M.sem(ro, ctx, {}), ro.ufl_shape)
     es, ps = split_args(recipe)
     f = ops()[name][2]
     if name in CTX_OPS:
@@ -905,6 +920,8 @@ def show_recipe(r):
         return f"({show_recipe(r[1])})('{r[2]}')"
     if name in ("jump", "avg"):
         return f"{name}({show_recipe(r[1])})"
+    if name == "refval":
+        return f"ReferenceValue({show_recipe(r[1])})"
     es, ps = split_args(r)
     ss = [show_recipe(e) for e in es]
     inf = {"add": "+", "sub": "-", "mul": "*", "div": "/", "pow": "**"}
